@@ -3,7 +3,7 @@
 cd "$(dirname "$0")/.."
 ev=$(mktemp -d)
 for sd in "$@"; do
-for p in C01 C02 C03 C04 C05 C06 C07 C08 C09 C10 C11 C12 C13 C14 C15 C16 C17 C18 C19 E2E X01 X02 X03; do
+for p in C01 C02 C03 C04 C05 C06 C07 C08 C09 C10 C11 C12 C13 C14 C15 C16 C17 C18 C19 E2E X01 X02 X03 X04; do
   out=$(VERIF_SEED=$sd VERIF_EVIDENCE_DIR=$ev timeout 1200 ./vcheck $p --tier quick 2>&1)
   rc=$?
   echo "seed=$sd $p rc=$rc $(echo "$out" | grep -E 'evidence written' | sed 's/.*written: //' | cut -c1-120)"
